@@ -18,7 +18,7 @@ RULE = ("Each run = one program (seeded generator: constants used in instruction
         "definitions 'not ready' until a later statement starts (Symbol._resolve seam, only under "
         "try_compute). Oracle: outcome class and (base, bytes) equal to the fault-free run; a divergence is "
         "a violation only if the concrete witness (definition text really moved) reproduces it with no "
-        "injection. A sample of schedules is also checked directly on the witness. "
+        "injection. 20% of the schedules are also checked directly on the witness (moved source, no injection). "
         "distinct_nontrivial = distinct (program digest, schedule) pairs in which at least one lookup was "
         "refused and later answered.")
 COMPONENTS = {
@@ -151,7 +151,7 @@ def run_one(ns, i, seed_i, tier):
                     break
                 continue
             diverged = not eb.same_outcome(o0, ok)
-            direct = (not diverged) and rng.random() < 0.08
+            direct = (not diverged) and rng.random() < 0.2
             if diverged or direct:
                 if diverged:
                     counters["divergences"] += 1
